@@ -17,7 +17,7 @@ def reg(pid, cat, text, note, tech, ref):
 reg('C09', 'model_checking',
     'Complete enumeration of each codec domain (all lengths 0..70000 + boundaries in every header form, all partial chunkings '
     'of the chunk alphabet, all MPI bit lengths, all 256 counts, timestamp boundaries x zones (given as datetimes and as the modification time of a file a message is made from), every width-boundary transition '
-    'after a parse - user id packets edited, and secret-key packets arriving under five header forms then protected and re-protected in place under ciphers with other IV sizes) on the real encoder/decoder, each compared with an RFC 4880 reference codec. The space is finite and small, so '
+    'after a parse - one subpacket-header object decoding one header after another, user id packets edited, and secret-key packets arriving under five header forms then protected and re-protected in place under ciphers with other IV sizes) on the real encoder/decoder, each compared with an RFC 4880 reference codec. The space is finite and small, so '
     'exhaustive enumeration rather than sampling is the right level.',
     'Trusted: refpgp.wire (60 lines per codec, self-tested against GnuPG-made fixtures). Lengths between 70001 and 2^32 are covered only at boundary values.',
     'exhaustive input-space enumeration on the real code vs. reference codec', 'DESIGN.md 2/C09')
@@ -25,7 +25,7 @@ reg('C09', 'model_checking',
 reg('C12', 'model_checking',
     'Complete enumeration of the S2K configuration alphabet (3 specifiers x 7 hashes x key sizes x all 256 coded counts for the sweep hashes / '
     'edge counts for the rest x passphrase lengths 0..70, count-boundary lengths, 1000, 5000, UTF-8, raw bytes x salts) on the real derive_key, built '
-    'through setters and through the wire form, against an independent streaming implementation of RFC 4880 3.7.1; plus every ordered pair of a 72-configuration alphabet derived one after the other in one process (fresh objects, one object re-configured, a copy); plus all 120 assignment orders of the five specifier fields and every kind-to-kind switch of a live specifier object, and refused (out-of-range) assignments before and after the valid ones.',
+    'through setters and through the wire form, against an independent streaming implementation of RFC 4880 3.7.1; plus every ordered pair of a 72-configuration alphabet derived one after the other in one process (fresh objects, one object re-configured, a copy); plus all 120 assignment orders of the five specifier fields and every kind-to-kind switch of a live specifier object, refused (out-of-range) assignments before and after the valid ones, and one specifier object parsing two wire forms in turn.',
     'Trusted: hashlib digests; refpgp.s2k (40 lines, RFC wording). Quick sweeps all 256 counts for SHA-1/AES-256 and SHA-256/AES-128 only; thorough sweeps all hashes.',
     'exhaustive input-space enumeration on the real code vs. reference S2K', 'DESIGN.md 2/C12')
 
@@ -39,7 +39,7 @@ reg('C17', 'model_checking',
 reg('C02', 'model_checking',
     'Full product of 21 signature kinds x 10 signing keys (RSA 1024/2048/3072, DSA 1024/2048, ECDSA P-256/384/521/secp256k1, Ed25519) x 6 hashes, '
     'plus option sets (none, singles incl. subpackets of 192..255 and > 255 octets, all compatible pairs, all together; thorough: triples), documents searched so that the digest has leading zero / 0xFF / 0x01 octets for every signer, GnuPG 2.2.40 vectors, and a subject alphabet (every octet, empty, line-ending '
-    'styles, UTF-8 user ids, the empty user id, image attributes, keys of every algorithm). Each PGPy-made signature is strict-parsed, verified by an independent RFC 4880 '
+    'styles, UTF-8 user ids, the empty user id, user ids whose key object has been collected, image attributes, keys of every algorithm). Each PGPy-made signature is strict-parsed, verified by an independent RFC 4880 '
     '5.2.4 implementation from the received octets, re-imported and re-verified, and checked for the requested subpackets (the caller-owned option containers are emptied / overwritten as soon as each call is back); each reference-made '
     'signature over the same space must verify under PGPy.',
     'Trusted: refpgp.sig (validated against 69 GnuPG-made fixture signatures at setup), OpenSSL curve arithmetic for ECDSA/Ed25519 on an externally '
@@ -50,7 +50,7 @@ reg('C01', 'fault_enumeration',
     'Deviation-bounded fault enumeration on real signatures: 0 deviations (every base must verify) then every single mutation of a finite alphabet -- '
     'subject bit flips and edits, type-confusion twins, every other signature type / public-key algorithm / hash id, every bit of the hashed area and its '
     'length, hashed subpacket add / remove / duplicate / reorder / demote to unhashed, signature integer bits, other keys with the issuer rewritten, '
-    'primary<->subkey relabelling (also to encryption-only subkeys and to a sibling subkey inside the same key), a cross-signature carried by the binding of a sibling, parts swapped between certificates, content flips in signed messages, string documents that differ only in characters without a UTF-8 encoding (unpaired surrogates), blank characters added to / removed from line ends of cleartext messages -- every rejected signature verified again as a copy; plus every sequence (depth 3, thorough 4) of good and forged verifications on one live key with the same signature objects -- over 60 algorithm x hash bases and 21 signature '
+    'primary<->subkey relabelling (also to encryption-only subkeys and to a sibling subkey inside the same key), a cross-signature carried by the binding of a sibling, parts swapped between certificates, content flips in signed messages, string documents that differ only in characters without a UTF-8 encoding (unpaired surrogates), user attributes of one to three subpackets each presented for every other, blank characters added to / removed from line ends of cleartext messages -- every rejected signature verified again as a copy; plus every sequence (depth 3, thorough 4) of good and forged verifications on one live key with the same signature objects -- over 60 algorithm x hash bases and 21 signature '
     'kinds x 4 signers (~1.1e5 verifications). Thorough adds reference-signed bases, all 10 signers and mutation pairs (2 deviations). Soundness is a '
     'statement about adversarial inputs, so enumerating the fault alphabet on the real verifier is the fitting level.',
     'Mutations are classified by construction (hashed region / integers / subject / key => different; unhashed data => free); when PGPy accepts a '
@@ -62,7 +62,7 @@ reg('C05', 'model_checking',
     'body alphabets (all flag octets, booleans 0/1/2/255, all 256 revocation-key classes, text in 8 encodings, known/unknown list ids, every free-layout '
     'length of the length set), 2-4 subpackets in every order with duplicates, embedded signatures. For every packet PGPy accepts: hashdata() equals the '
     'RFC 4880 hash input over the received octets, verification is truthy, and every single-bit flip in the header/hashed region of a representative of '
-    'each class (~7e5 flips) is rejected; the same for the primary-key binding embedded in a certificate (7 unusual hashed areas x placement), RSA signatures under algorithm octets 1 / 2 / 3, and every order of reading attestations / verifying / exporting on a key with an attestation; every accepted case also as copy.copy and copy.deepcopy, and once more with the length of its unhashed area understated (hash input compared, every bit flip).',
+    'each class (~7e5 flips) is rejected; the same for the primary-key binding embedded in a certificate (7 unusual hashed areas x placement), RSA signatures under algorithm octets 1 / 2 / 3, and every order of reading attestations / verifying / exporting on a key with an attestation; every accepted case also as copy.copy and copy.deepcopy, and once more with the length of its unhashed area understated (hash input compared, every bit flip); one signature object reading every ordered pair of 8 packets.',
     'Trusted: refpgp.sig signer (Ed25519 through OpenSSL). Packets PGPy rejects at import are outside the property and are counted.',
     'exhaustive input enumeration + exhaustive single-bit fault enumeration on the real parser/verifier', 'DESIGN.md 2/C05')
 
@@ -72,7 +72,7 @@ reg('C03', 'model_checking',
     'ordering of (key, key, passphrase) triples with generated and supplied session keys; 0-2 signers; binary and armored transport. Every PGPy-made '
     'message is decrypted by PGPy with each recipient and by an independent RFC 4880/6637 decryptor (plaintext packets must equal the export); the same '
     'matrix plus foreign framings (old format, partial lengths, SKESK without session key, simple/salted/iterated S2K, marker packet, legacy tag 9) is '
-    'encrypted by the reference and must be decrypted by PGPy to the original; ECDH recipients with non-default KDF parameters on 4 curves both ways; a refused recipient (ElGamal subkey, sign-only key) tried on an already encrypted message, which must stay as it was; 60 GnuPG 2.2.40 messages.',
+    'encrypted by the reference and must be decrypted by PGPy to the original; ECDH recipients with non-default KDF parameters on 4 curves both ways; a refused recipient (ElGamal subkey, sign-only key) tried on an already encrypted message, which must stay as it was; the compression algorithm given as plain int / False; 60 GnuPG 2.2.40 messages.',
     'Trusted: refpgp.enc/msg (validated at setup against GnuPG-made fixture messages, protected fixture keys and RFC 3394 vectors); OpenSSL ECDH scalar '
     'multiplication and block primitives in ECB mode. Largest body 64 KiB in quick, 4 MiB in thorough.',
     'exhaustive configuration enumeration on the real encrypt/decrypt paths, differential against an independent implementation', 'DESIGN.md 2/C03')
@@ -81,7 +81,7 @@ reg('C04', 'fault_enumeration',
     'Deviation-bounded fault enumeration on real integrity-protected messages: 0 faults (base must decrypt to the original) then every single fault of the '
     'alphabet - every bit of the encrypted-data packet and of the session-key packets, truncation at every offset (re-framed and raw), extensions, every '
     'block swap / drop / duplication, block-aligned splices and MDC transplants between two messages under one session key, version / tag changes, integrity-protected data re-framed as legacy tag 9 from every block boundary, every '
-    'arrangement (<= 4) of the top-level packets, a literal / compressed / marker / second data packet inserted at every position, stored ciphertext vectors, 12 wrong passphrases, wrong passphrases sharing the first 1016 octets of a 1100-octet one under S2K count 1024, every non-recipient key with and without rewritten recipient id - over cipher x '
+    'arrangement (<= 4) of the top-level packets, a literal / compressed / marker / second data packet inserted at every position, stored ciphertext vectors, 12 wrong passphrases, wrong passphrases sharing the first 1016 octets of a 1100-octet one under S2K count 1024, octet passphrases that are not UTF-8 against their one-octet variants and lossy decodings, every non-recipient key with and without rewritten recipient id - over cipher x '
     'recipient x body bases (~4e4 decryptions); plus every sequence (depth 3, thorough 4) of right / wrong secrets on ONE message object, intact and tampered; plus one refused digest request per decryption (each position in turn, and every SHA-1) on the intact message and on every changed data octet. Outcome must be an exception, the original plaintext, or a refusal that hands back no plaintext.',
     'RSA session-key packets: quick covers every bit of the fixed fields and of the first/last 8 octets of the integer, thorough every bit. Two messages '
     'encrypted under one session key may be exchanged as wholes (inherent to OpenPGP). PGPKey.decrypt on an input without encrypted data returns the input '
@@ -94,7 +94,7 @@ reg('C06', 'model_checking',
     'and the invariant (private fields zero, no secret integer reachable in the object graph or in the export, private operations refuse, export opens with '
     'the model passphrase under an independent implementation) evaluated after every operation (incl. a wrong passphrase tried inside an open scope); plus exhaustive protection configurations: 11 key sets (incl. non-default ECDH KDF parameters, P-521 points with leading zero octets, RSA under the deprecated ids 3 / 2) x 9 '
     'ciphers x S2K hashes x counts {0, 96, 255} x passphrase kinds, and reference-protected foreign forms (simple/salted/iterated x usage 254/255 x 5 '
-    'ciphers x RSA, DSA, ECDSA, EdDSA, ECDH, ElGamal, GNU dummy, subkey under another passphrase), each also re-protected under a new passphrase and opened by the reference; protect() with a refused cipher at top level and inside the scope; 9 protection-state pairs of primary and subkey (clear / passphrase A / passphrase B) given a new passphrase directly and inside a scope (no secret integer may be lost); one refused digest request per unlock on the intact and on every changed protected key.',
+    'ciphers x RSA, DSA, ECDSA, EdDSA, ECDH, ElGamal, GNU dummy, subkey under another passphrase), each also re-protected under a new passphrase and opened by the reference; protect() with a refused cipher at top level and inside the scope; 9 protection-state pairs of primary and subkey (clear / passphrase A / passphrase B) given a new passphrase directly and inside a scope (no secret integer may be lost); one refused digest request per unlock on the intact and on every changed protected key; the passphrase as bytes / bytearray / memoryview to protect() and unlock().',
     'Trusted: refpgp.enc.unprotect_secret (validated at setup on GnuPG-protected fixture keys). States are deduplicated on (passphrase id, protection '
     'parameters, object provenance, public twin derived, observable flags); depth bound 3 (quick) / 4 (thorough).',
     'explicit-state history search with crash-point enumeration on the real objects + exhaustive configuration enumeration vs. independent implementation', 'DESIGN.md 2/C06')
@@ -114,7 +114,7 @@ reg('C18', 'model_checking',
     'e=3, short DSA y, EC coordinates and Ed25519 / Curve25519 points with a zero top or last octet) x 12 creation times (0, 1, DST edges, 2^31-1, 2^31, 2^32-1) '
     'x 4 process time zones x producer (reference-encoded import; time set through the API as aware-UTC and aware non-UTC datetime; naive datetime; generated by PGPy) x 8 object '
     'forms (private, public twin, copy, binary / armored re-import, protected, unlocked, locked again); fingerprint and key id must equal SHA-1 over 0x99, '
-    'length and the exported public-key packet, which itself must equal the reference encoding; plus ECDH keys with every non-default KDF parameter pair, keys attached as subkeys of an older / younger primary, P-521 keys generated by PGPy, fingerprints as printed by GnuPG 2.2.40 for its own keys, and issuer / issuer-fingerprint / recipient ids written by PGPy.',
+    'length and the exported public-key packet, which itself must equal the reference encoding; plus ECDH keys with every non-default KDF parameter pair, keys attached as subkeys of an older / younger primary, P-521 keys generated by PGPy, fingerprints as printed by GnuPG 2.2.40 for its own keys, issuer fields of certifications and revocations made over another key, and issuer / issuer-fingerprint / recipient ids written by PGPy.',
     'The SHA-1 is computed by the reference from PGPy\'s exported packet and, independently, from the raw numbers. Intermediate creation times are covered at 12 boundary values.',
     'exhaustive enumeration of key x time x zone x form on the real code vs. RFC 4880 12.2', 'DESIGN.md 2/C18')
 
@@ -122,7 +122,7 @@ reg('C10', 'model_checking',
     'Every payload length 1..400 (thorough 1..3000) x 4 fills through the real Armorable.__str__ / ascii_unarmor with 3 header sets and 5 input forms (str, '
     'bytes, bytearray, CRLF, surrounded by other text), checked against an independent radix-64 / CRC-24 / armor-framing decoder (payload, label, <= 76 columns, '
     'headers, CRC); 9 real objects (public / private / large keys, literal / signed / encrypted messages, detached signature, cleartext message) x header sets x '
-    'forms; every (loader class, block kind) pair; and for 10 payloads (through ascii_unarmor) and 7 real armored objects (through the class a user loads them with; one cleartext message has a dash after every separator that is not a line end; the whole checksum line replaced by other well-formed values incl. =AAAA); payloads whose CRC-24 is exactly zero every single-character substitution of the radix-64 body and CRC line by {next '
+    'forms; every (loader class, block kind) pair; and for 10 payloads (through ascii_unarmor) and 7 real armored objects (through the class a user loads them with; one cleartext message has a dash after every separator that is not a line end; the whole checksum line replaced by other well-formed values incl. =AAAA); payloads whose CRC-24 is exactly zero; every reported corruption loaded a second time every single-character substitution of the radix-64 body and CRC line by {next '
     'alphabet character, =, space, !}: unless payload and CRC still agree PGPy must raise or emit the CRC warning; every ordered pair of objects with a header set on the first (headers belong to one object).',
     'Trusted: refpgp.armor (bitwise CRC-24, own radix-64). Reading armor headers back is not part of the property and is not demanded.',
     'exhaustive enumeration + exhaustive single-character fault enumeration on the real armor codec', 'DESIGN.md 2/C10')
@@ -131,7 +131,7 @@ reg('C11', 'model_checking',
     'Every sequence of 0..3 lines over a 23-line adversarial alphabet (dash / From / armor-looking lines, trailing space / tab / form feed / vertical tab / no-break space, embedded U+2028 / U+0085, carriage returns without line feed, a dash after each separator that is not a line end, non-BMP, 1000 characters) x {LF, CRLF} x {final line end, none}; thorough adds 4-line texts over a '
     'reduced alphabet): PGPy writes the cleartext message, an independent RFC 4880 section 7 reader checks dash-escaping, the Hash header and un-escaping and '
     'verifies the signature over the 7.1 canonical text; PGPy reads its own output back (same text, same signatures, verifies); the reference writes and signs '
-    'the same text and PGPy must verify it; 6 hashes x 6 signer sets (Ed25519, RSA, ECDSA, DSA, two signers) on a slice; CRLF-armored files; the text handed over as bytes / bytearray / bytearray with encoding (the buffer overwritten after signing) and as a file on disk; line ends at octets 2^16 / 2^17; GnuPG 2.2.40 cleartext vectors.',
+    'the same text and PGPy must verify it; 6 hashes x 6 signer sets (Ed25519, RSA, ECDSA, DSA, two signers) on a slice; CRLF-armored files; the text handed over as bytes / bytearray / bytearray with encoding (the buffer overwritten after signing) and as a file on disk; line ends at octets 2^16 / 2^17; 1..257 lines of each class; GnuPG 2.2.40 cleartext vectors.',
     'Trusted: refpgp.armor / refpgp.sig. A carriage return without line feed is a character of its line (anchored by two GnuPG vectors); a line that ends in one is not in the alphabet.',
     'exhaustive text enumeration on the real writer / reader / signer / verifier, differential against an independent implementation', 'DESIGN.md 2/C11')
 
@@ -141,7 +141,7 @@ reg('C20', 'model_checking',
     'compression, exported once at the end or after every signature; contents also from a buffer the caller goes on using; sign-then-encrypt and encrypt-then-sign x recipients (and the export of the message decrypt() returns); every export is parsed by an independent RFC 4880 11.3 grammar recogniser (n one-pass '
     'packets, literal, n signatures, i-th one-pass packet describing the (n-1-i)-th signature, only the last flagged final, compression around the whole signed '
     'sequence, session-key packets then one container) and re-imported from binary and armor (content, name, time, format, compression, signature multiset); '
-    'reference-made and GnuPG-made messages in old-format / partial-length framing and foreign compression - with binary-mode and text-mode (0x01) signatures, alone and mixed - are imported, verified and re-exported; messages made from files whose modification time is each boundary of the four-octet time (0 included), path given as str / Path / bytes; copies of built and imported messages; returned content must equal the content put in.',
+    'reference-made and GnuPG-made messages in old-format / partial-length framing and foreign compression - with binary-mode and text-mode (0x01) signatures, alone and mixed - are imported, verified and re-exported; indeterminate-length literals signed after import; the compression algorithm given as plain int / False; messages made from files whose modification time is each boundary of the four-octet time (0 included), path given as str / Path / bytes; copies of built and imported messages; returned content must equal the content put in.',
     'Trusted: refpgp.msg grammar recogniser and packet parsers (validated at setup against GnuPG-made fixture messages).',
     'exhaustive configuration enumeration on the real builder / exporter / importer vs. independent grammar recogniser', 'DESIGN.md 2/C20')
 
@@ -162,7 +162,7 @@ reg('C07', 'model_checking',
     'and on the export loaded back: only packet tags 6, 14, 13, 17, 2 in binary and armored export, equality with the private key in fingerprint, identities, '
     'subkeys and exportable signatures, no secret-integer octets in the export, no secret reachable in the object graph, sign / certify / revoke / revoker / bind / '
     'decrypt / add_subkey refuse, protect / unlock leave the object public; plus all 8 C06 key sets in unprotected / locked / unlocked (twin derived inside the '
-    'unlock scope) / locked-again form, and reference-made private keys whose attributes hold an image next to a private-use subpacket, such a subpacket alone, two images, a 9 kB image under both length forms; a key set whose RSA components carry the deprecated algorithm ids.',
+    'unlock scope) / locked-again form, and reference-made private keys whose attributes hold an image next to a private-use subpacket, such a subpacket alone, two images, a 9 kB image under both length forms; a key set whose RSA components carry the deprecated algorithm ids; key-level signatures whose signature expiration has passed.',
     'Secret needles: every secret integer of >= 8 octets and every secret MPI block of the fixture material.',
     'explicit-state BFS over operation histories on the real objects, invariant in every state', 'DESIGN.md 2/C07')
 
@@ -178,7 +178,7 @@ reg('C14', 'model_checking',
 
 reg('C16', 'model_checking',
     'Reference-written RSA keys for the full product primary flag set (8) x 0..2 subkeys with flag sets {absent, C, S, E, Es, A, S+E, all, none} (728 '
-    'configurations; thorough: three subkeys), every (old flags, new flags) pair of a newer binding / self-certification on primary, first and second subkey (plain, and carrying signature / key expiration time 0 = never), and every ordered pair of '
+    'configurations; thorough: three subkeys), every (old flags, new flags) pair of a newer binding / self-certification on primary, first and second subkey (plain, and carrying signature / key expiration time 0 = never), a newer binding signature issued by another key on a subkey, and every ordered pair of '
     'flag sets on two identities selected with user=; on each: sign, certify, encrypt on the public and the private form (representative slice: all four forms '
     'public / private / locked / unlocked x enforcement on / off), every sequence (depth 3, thorough 4) of uses and newer self-signatures on one live key (Ed25519 + signing + encryption subkey), a locked primary with unprotected subkeys, an identity-less RSA key, every primary x subkey flag pair with a contradicting key-flags subpacket in the unhashed area of each self-signature, and one reference-encrypted message per component for decrypt, alone and behind the session-key packets of other components. Oracle: refuses iff no '
     'component is granted the capability by its most recent self-signature (enforcement off lifts only the refusal, not the delegation); otherwise the component named in the signature / session-key packet is granted it '
@@ -189,7 +189,7 @@ reg('C16', 'model_checking',
 
 reg('C19', 'model_checking',
     'Breadth-first explicit-state search over load / unload histories on the real PGPKeyring with a universe of 8 key objects (two keys sharing name, comment and '
-    'e-mail, one sharing only the e-mail, the public and private half of one key, both halves of a key with two subkeys, a second object of one key, two keys whose names differ only in where their spaces are, two keys sharing a short id), unload by selector and by held object, a subkey unloaded / loaded on its own (component-level model), blobs holding both halves of one key: the clusters of keys that share identifiers are each '
+    'e-mail, one sharing only the e-mail, the public and private half of one key, both halves of a key with two subkeys, a second object of one key, two keys whose names differ only in where their spaces are, two keys sharing a short id, a key whose subkey object was later bound under a second key), unload by selector and by held object, a subkey unloaded / loaded on its own (component-level model), blobs holding both halves of one key: the clusters of keys that share identifiers are each '
     'explored to closure of the canonical state (model multiset + alias layout), the whole universe and blob loads (binary, armor, file, list) to a depth bound; in '
     'every state: fingerprints() under all 9 filter combinations, len, every fingerprint (plain, spaced, GnuPG display form), key id, short id, name, comment, e-mail of a '
     'loaded key is in the keyring and selects a loaded key carrying it, identifiers of unloaded-only keys select nothing, selection by signature and by message (KeyError when the issuer / recipient is not loaded).',
@@ -203,7 +203,7 @@ reg('C08', 'model_checking',
     'marker, trust) x 4 trailers: Packet() consumes exactly the packet, leaves the trailer, re-serialises identically. Foreign input: the same bodies re-framed by '
     'the reference in new 1/2/5-octet, partial (1-3 chunks) and old 1/2/4-octet / indeterminate form, unknown tags 15, 16, 20-63, unknown versions, every '
     'subpacket type hashed and unhashed, lossy-looking unhashed values (non-ASCII text, booleans 2/255, unknown flag bits, non-minimal lengths): re-serialised '
-    'header length equals body length, accepted again, same field values (generic attribute walk), fixed point. algorithm octets without a field parser in known packets, attribute subpackets in every length form. Plus in-place mutation of parsed objects; every readable attribute and property of a parsed packet is read before it is serialised (readers do not change the object).',
+    'header length equals body length, accepted again, same field values (generic attribute walk), fixed point. algorithm octets without a field parser in known packets, attribute subpackets in every length form. Plus in-place mutation of parsed objects; every readable attribute and property of a parsed packet is read before it is serialised (readers do not change the object); attribute packets with two and three subpackets.',
     'Trusted: refpgp.wire framing. Packets PGPy rejects are outside the foreign half and are counted.',
     'exhaustive packet enumeration through the real parser / serialiser vs. reference framing', 'DESIGN.md 2/C08')
 
